@@ -42,6 +42,71 @@ def D10_twoSucceed {α β : Type} (attempt : α → Option β) (bases : List α)
 /-- Exception class of `siteOrNarrow`: two or more constraints. -/
 def D10_twoConstraints (order : List Nat) : Bool := decide (2 ≤ order.length)
 
+/-! ### The registry of modelled sites
+
+One row per set-iteration site of the anchored files: (file, function, fingerprint of the scan,
+the site function of `Core/Cache.lean` that models it, exception class or `-`). The obligation
+`sites_registered` (Proofs/C10.lean) says every site the scan finds in the live tree is listed. -/
+
+inductive SiteKind
+  | join | firstFail | firstSuccess | orNarrow | defNodes | tryDefNodes | orBound   -- order can show
+  | anyAll | setBuild | lookupMap | singleton | sortedJoin | emit | closure | printSeq
+  deriving DecidableEq, Repr
+
+def modelledSites : List (String × String × String × SiteKind × String) := [
+  ("pyanalyze/checker.py", "Checker._build_type_object", "anyall:bases", .anyAll, "-"),
+  ("pyanalyze/checker.py", "Checker._build_type_object", "passed-to-_get_protocol_members:bases", .setBuild, "-"),
+  ("pyanalyze/checker.py", "Checker._build_type_object", "passed-to-_get_protocol_members:typeshed_bases", .setBuild, "-"),
+  ("pyanalyze/checker.py", "Checker._build_type_object", "setbuild:bases", .setBuild, "-"),
+  ("pyanalyze/checker.py", "Checker._get_recursive_typeshed_bases", "pop:to_do", .closure, "-"),
+  ("pyanalyze/format_strings.py", "PercentFormatString.accept_mapping_args_no_mvv", "join:keys_left", .join, "joinKeysLeft"),
+  ("pyanalyze/format_strings.py", "PercentFormatString.accept_mapping_args_no_mvv", "setbuild:cs_map.keys() - seen_keys", .setBuild, "-"),
+  ("pyanalyze/format_strings.py", "_parse_replacement_field", "sorted:allowed_specials", .sortedJoin, "-"),
+  ("pyanalyze/format_strings.py", "_parse_replacement_field", "sorted:allowed_specials#1", .sortedJoin, "-"),
+  -- prints `Unused method: …` lines to stdout in set order (only with --find-unused-attributes; not a diagnostic)
+  ("pyanalyze/name_check_visitor.py", "ClassAttributeChecker.check_unused_attributes", "for:existing_attrs - attrs_read - ignored", .printSeq, "unusedAttributeListing"),
+  ("pyanalyze/name_check_visitor.py", "ClassAttributeChecker.check_unused_attributes", "passed-to-_add_attrs:attr_names_read", .setBuild, "-"),
+  ("pyanalyze/name_check_visitor.py", "NameCheckVisitor._check_function_unused_vars", "anyall:scope.name_to_all_definition_nodes[unused.id]", .anyAll, "-"),
+  ("pyanalyze/name_check_visitor.py", "NameCheckVisitor._check_function_unused_vars", "for:all_unused_nodes", .emit, "-"),
+  ("pyanalyze/name_check_visitor.py", "NameCheckVisitor._check_function_unused_vars", "passed-to-_all_names_unused:all_unused_nodes", .anyAll, "-"),
+  ("pyanalyze/name_check_visitor.py", "NameCheckVisitor._check_function_unused_vars", "passed-to-_all_names_unused:all_unused_nodes#1", .anyAll, "-"),
+  ("pyanalyze/name_check_visitor.py", "NameCheckVisitor._constraint_from_compare_op", "next-iter:predicate_types", .singleton, "-"),
+  ("pyanalyze/name_check_visitor.py", "NameCheckVisitor._maybe_show_missing_f_error", "anyall:names", .anyAll, "-"),
+  ("pyanalyze/name_check_visitor.py", "NameCheckVisitor.constraint_from_condition", "passed-to-_check_boolability:disabled", .anyAll, "-"),
+  ("pyanalyze/signature.py", "Signature.bind_arguments", "join:extra_kwargs", .join, "joinExtraKwargs"),
+  ("pyanalyze/signature.py", "Signature.check_call_with_bound_args", "passed-to-resolve_bounds_map:self.all_typevars", .lookupMap, "-"),
+  ("pyanalyze/signature.py", "Signature.get_default_return", "dictbuild:self.all_typevars", .lookupMap, "-"),
+  -- text of an InvalidSignature exception; no source program reaches it
+  ("pyanalyze/signature.py", "Signature.validate", "join:disallowed_previous", .join, "joinDisallowedKinds"),
+  ("pyanalyze/signature.py", "preprocess_args", "passed-to-ActualArguments:pok_indices", .anyAll, "-"),
+  ("pyanalyze/stacked_scopes.py", "FunctionScope._resolve_origin", "pop:pending", .closure, "-"),
+  ("pyanalyze/stacked_scopes.py", "FunctionScope._resolve_value", "passed-to-_get_value_from_nodes:val.definition_nodes", .defNodes, "defNodeSetOrder"),
+  ("pyanalyze/stacked_scopes.py", "FunctionScope.get_combined_scope", "dictbuild:all_variables", .lookupMap, "-"),
+  ("pyanalyze/stacked_scopes.py", "FunctionScope.get_local", "passed-to-_get_value_from_nodes:definers", .defNodes, "defNodeSetOrder"),
+  ("pyanalyze/stacked_scopes.py", "FunctionScope.get_local", "passed-to-_resolve_origin:definers", .closure, "-"),
+  ("pyanalyze/stacked_scopes.py", "FunctionScope.get_origin", "passed-to-_resolve_origin:definers", .closure, "-"),
+  ("pyanalyze/stacked_scopes.py", "FunctionScope.set", "for:self.name_to_composites[varname]", .lookupMap, "-"),
+  ("pyanalyze/stacked_scopes.py", "FunctionScope.suppressing_subscope", "dictbuild:all_keys", .lookupMap, "-"),
+  ("pyanalyze/stacked_scopes.py", "FunctionScope.suppressing_subscope", "list:nodes - old_defn_nodes.get(key, set())", .tryDefNodes, "tryDefNodeOrder"),
+  ("pyanalyze/stacked_scopes.py", "OrConstraint.apply", "list:set(constraints)", .orNarrow, "orConstraintOrder"),
+  ("pyanalyze/type_object.py", "TypeObject.__str__", "join:self.protocol_members", .join, "protocolMembersOrder"),
+  ("pyanalyze/type_object.py", "TypeObject._is_compatible_with_protocol", "for:self.protocol_members", .firstFail, "protocolMembersOrder"),
+  -- the two rows a `sorted(self.protocol_members)` repair of the previous two sites produces
+  ("pyanalyze/type_object.py", "TypeObject.__str__", "sorted:self.protocol_members", .sortedJoin, "-"),
+  ("pyanalyze/type_object.py", "TypeObject._is_compatible_with_protocol", "sorted:self.protocol_members", .sortedJoin, "-"),
+  ("pyanalyze/type_object.py", "TypeObject.can_assign", "for:other.artificial_bases", .firstSuccess, "artificialBaseChoice"),
+  ("pyanalyze/type_object.py", "TypeObject.can_assign", "for:other.base_classes", .anyAll, "-"),
+  ("pyanalyze/type_object.py", "TypeObject.has_attribute", "for:self.base_classes", .anyAll, "-"),
+  ("pyanalyze/type_object.py", "TypeObject.is_assignable_to_type", "for:self.base_classes", .anyAll, "-"),
+  ("pyanalyze/value.py", "CanAssignError.get_error_code", "next-iter:errors", .singleton, "-"),
+  ("pyanalyze/value.py", "intersect_bounds_maps", "next-iter:bound_lists", .singleton, "-"),
+  ("pyanalyze/value.py", "intersect_bounds_maps", "tuple:bound_lists", .orBound, "orBoundOrder")
+]
+
+/-- Every scanned site has a row. -/
+def sitesRegistered (scanned : List (String × String × String)) : Bool :=
+  scanned.all fun s => modelledSites.any fun m => m.1 == s.1 && m.2.1 == s.2.1 && m.2.2.1 == s.2.2
+
 /-! ### Classifying a textual difference between two renderings of the same diagnostic
 
 A message is cut into tokens at the separators of lists and unions; two renderings *differ by
@@ -64,18 +129,32 @@ def D10_orderOnly (a b : String) : Bool := a != b && isPermOf (tokens a) (tokens
 
 def hasSub (s pat : String) : Bool := (s.splitOn pat).length > 1
 
+/-- The head of a rendered diagnostic: the text before ` (code: …)` (detail lines follow it). -/
+def headOf (s : String) : String := (s.splitOn " (code: ").headD s
+
+/-- The detail part of a rendered diagnostic (after the code). -/
+def detailOf (s : String) : String := " (code: ".intercalate ((s.splitOn " (code: ").drop 1)
+
+/-- Two renderings of a protocol incompatibility differ by member order only: the heads list the
+same members in another order (or are equal), and the detail lines — which name the *first*
+failing member of that order — are both protocol-member details (or equal). -/
+def D10_protocolOrderOnly (a b : String) : Bool :=
+  a != b && hasSub a "(Protocol with members" && hasSub b "(Protocol with members" &&
+  (headOf a == headOf b || D10_orderOnly (headOf a) (headOf b)) &&
+  (detailOf a == detailOf b ||
+    ((hasSub (detailOf a) "Value of protocol member" || hasSub (detailOf a) "has no attribute") &&
+     (hasSub (detailOf b) "Value of protocol member" || hasSub (detailOf b) "has no attribute")))
+
 /-- The site class a purely order-related difference belongs to, by message template. `hint` is the
-feature of the generated program the diagnostic stems from (`or`, `try`, or empty). -/
+feature of the generated program the diagnostic stems from (`or`, `try`, `defnodes`, or empty). -/
 def orderClass (hint a b : String) : String :=
-  if !D10_orderOnly a b then "-"
+  if D10_protocolOrderOnly a b then "protocolMembersOrder"
+  else if !D10_orderOnly a b then "-"
   else if hasSub a "Got unexpected keyword arguments" then "joinExtraKwargs"
   else if hasSub a "No value specified for keys" then "joinKeysLeft"
-  else if hasSub a "(Protocol with members" then
-    -- the member list differs; the detail line (first failing member) may differ as well
-    "protocolMembersOrder"
-  else if hasSub a "Value of protocol member" || hasSub a "has no attribute" then "protocolMembersOrder"
   else if hint == "or" then "orConstraintOrder"
   else if hint == "try" then "tryDefNodeOrder"
+  else if hint == "defnodes" then "defNodeSetOrder"
   else "-"
 
 /-! ## History -/
@@ -83,14 +162,14 @@ def orderClass (hint a b : String) : String :=
 /-- Structural meaning of protocol compatibility in mode `ex`, by direct recursion (no cache, no
 guard). The fuel bounds the nesting depth; for well-founded worlds the value is stable once the
 fuel exceeds the rank (`Proofs/C10.lean`, `sem_stable`). -/
-def sem (W : World) (ex : Bool) : Nat → Pid → Vid → Bool
-  | 0, _, _ => false
-  | n + 1, p, v =>
-    (W.req p v).all fun m => m.all fun a =>
-      match a with
+def sem (W : World) (ex : Bool) : Nat → Pid → Nat → Vid → Bool
+  | 0, _, _, _ => false
+  | n + 1, p, a, v =>
+    (W.req p a v).all fun m => m.all fun atm =>
+      match atm with
       | .const b => b
       | .anyOk => !ex
-      | .sub p' v' => sem W ex n p' v'
+      | .sub p' a' v' => sem W ex n p' a' v'
 
 /-- A rank on (protocol, TypeObject) pairs. -/
 abbrev Rank := Pid → Nat → Nat
@@ -100,9 +179,9 @@ def rankOf (rk : List ((Pid × Nat) × Nat)) : Rank := fun p t => (rk.lookup (p,
 /-- Every nested check listed in the world goes to a pair of strictly smaller rank: the recursion
 guard can never fire. -/
 def rankOK (W : World) (rk : Rank) : Bool :=
-  W.reqs.all fun e => e.2.all fun m => m.all fun a =>
-    match a with
-    | .sub p' v' => decide (rk p' (W.tobj v') < rk e.1.1 (W.tobj e.1.2))
+  W.reqs.all fun e => e.2.all fun m => m.all fun atm =>
+    match atm with
+    | .sub p' _ v' => decide (rk p' (W.tobj v') < rk e.1.1 (W.tobj e.1.2.2))
     | _ => true
 
 /-- Exception class: the protocols of the world are recursive w.r.t. the given rank. -/
@@ -111,14 +190,31 @@ def D10_cyclic (W : World) (rk : Rank) : Bool := !rankOK W rk
 /-- Exception class: the history (with the query) mixes the two modes. -/
 def D10_modeMix (h : List Query) (q : Query) : Bool := h.any fun q' => q'.ex != q.ex
 
+/-- No listed pair and no nested check of the world uses generic arguments other than variant 0. -/
+def worldNoArgs (W : World) : Bool :=
+  W.reqs.all fun e => e.1.2.1 == 0 && e.2.all fun m => m.all fun atm =>
+    match atm with
+    | .sub _ a' _ => a' == 0
+    | _ => true
+
+/-- Exception class: some protocol is used with generic arguments other than variant 0, in a query
+or in a nested check of the world (the positive cache does not tell the variants apart). -/
+def D10_selfArgs (W : World) (h : List Query) (q : Query) : Bool :=
+  (q :: h).any (fun q' => q'.a != 0) || !worldNoArgs W
+
+/-- The fuel exceeds the rank of every top-level query (Python has no fuel: it recurses until the
+guard fires, which for well-founded worlds is after at most `rank` nested calls). -/
+def fuelOK (W : World) (rk : Rank) (fuel : Nat) (qs : List Query) : Bool :=
+  qs.all fun q => decide (rk q.p (W.tobj q.v) < fuel)
+
 /-- One step of the structural-compatibility operator over the listed pairs. -/
-def gfpStep (W : World) (ex : Bool) (s : List (Pid × Vid)) : List (Pid × Vid) :=
+def gfpStep (W : World) (ex : Bool) (s : List (Pid × Nat × Vid)) : List (Pid × Nat × Vid) :=
   s.filter fun pv =>
-    (W.req pv.1 pv.2).all fun m => m.all fun a =>
-      match a with
+    (W.req pv.1 pv.2.1 pv.2.2).all fun m => m.all fun atm =>
+      match atm with
       | .const b => b
       | .anyOk => !ex
-      | .sub p' v' => s.contains (p', v')
+      | .sub p' a' v' => s.contains (p', a', v')
 
 def iter {α : Type} (f : α → α) : Nat → α → α
   | 0, x => x
@@ -126,17 +222,19 @@ def iter {α : Type} (f : α → α) : Nat → α → α
 
 /-- Greatest fixed point of `gfpStep` below the set of listed pairs (Kleene iteration from the top;
 `reqs.length` rounds suffice because every non-stationary round removes a pair). -/
-def gfpCompat (W : World) (ex : Bool) : List (Pid × Vid) :=
+def gfpCompat (W : World) (ex : Bool) : List (Pid × Nat × Vid) :=
   iter (gfpStep W ex) W.reqs.length (W.reqs.map (·.1))
 
 /-- The class of a history dependence `(h, q)` in world `W`, or `-`. -/
 def historyClass (W : World) (rk : Rank) (fuel : Nat) (h : List Query) (q : Query) : String :=
   let fresh := answerFresh W fuel q
   if answerAfter W fuel h q == fresh then "-"
-  else if D10_modeMix h q && answerAfter2 W true false fuel h q == fresh then "cacheIgnoresMode"
-  else if D10_cyclic W rk && answerAfter2 W false true fuel h q == fresh then "cacheUnderFailedAssumption"
-  else if D10_modeMix h q && D10_cyclic W rk && answerAfter2 W true true fuel h q == fresh then
-    "cacheIgnoresMode+cacheUnderFailedAssumption"
+  else if D10_modeMix h q && answerAfter2 W true false false fuel h q == fresh then "cacheIgnoresMode"
+  else if D10_selfArgs W h q && answerAfter2 W false true false fuel h q == fresh then "protoCacheKey"
+  else if D10_cyclic W rk && answerAfter2 W false false true fuel h q == fresh then
+    "cacheUnderFailedAssumption"
+  else if (D10_modeMix h q || D10_selfArgs W h q || D10_cyclic W rk)
+      && answerAfter2 W true true true fuel h q == fresh then "cacheSeveralCauses"
   else "-"
 
 end Pya.C10
